@@ -12,6 +12,27 @@ HOT_NOTE = (SEQ_NOTE + " 'Notified' is read as 'dequeued by the reloader' (the c
             "armed over unordered reloads) are compared for presence only.")
 
 CHECKS = {
+ "C08": dict(
+  category="model_checking",
+  text="Answers.tla models the answer mailbox at mutex/condvar grain; TLC exhausts 3-4 concurrent callers for deadlock freedom, OwnAnswer, "
+       "NoLostWakeup and (under fairness) AllReturn, with the as-built consume-without-notify as negative control; Reloader.tla bounds the sort "
+       "on every dependency graph incl. cycles; Lifecycle.tla shows no request is orphaned. The real crate runs 2-8 concurrent callers x "
+       "loader threads x event bursts (plain, cyclic look-ups, panicking reloads, sender dropped mid-run) in a child under a progress "
+       "watchdog, and its Request/Notify/Consume/return events are validated against Answers.tla.",
+  design="5/C08", note="Real schedules are those the OS produced (seeded drivers); all schedules are covered only in the model, for <= 4 callers. "
+       "Blocked = no completed call and no CPU for 4 s.",
+  technique="TLA+ specs Answers.tla, Reloader.tla checked by TLC (safety, deadlock, liveness); trace validation of hook events from concurrent stress runs; progress watchdog",
+ ),
+ "C15": dict(
+  category="model_checking",
+  text="Lifecycle.tla models the reloader's select loop and the lifetimes of its channels; TLC checks NoSpin, BlockedWhenIdle, NoOrphanRequest and, "
+       "under fairness, GoesAway/AllAnswered over every order of use, cache drop and sender drop (as-built exits are negative controls). "
+       "Hook events of real create/use/drop rounds are validated against it (every wake-up has a cause, every iteration consumes, exit exactly "
+       "after the drop), and /proc gives the thread's CPU time when idle and its disappearance after the drop, for in-memory and FileSystem sources.",
+  design="5/C15", note="CPU time and thread existence are OS measurements with the thresholds stated in the evidence; FileSystem rounds are measured but not "
+       "trace-validated (the watcher's sends are not logged).",
+  technique="TLA+ spec Lifecycle.tla checked by TLC; trace validation of the reloader loop's hook events; /proc thread accounting in a child process",
+ ),
  "C05": dict(
   category="model_checking",
   text="TLC checks Converged (cached value = a fresh load from the current source and cache whenever the reloader is quiet and nothing the "
